@@ -291,3 +291,72 @@ func exceptionContained(p *core.Prog, f *ssa.Function) bool {
 	})
 	return ok
 }
+
+// R-ITERPROTO: in iteratorRecord.iterate the iterator is closed when the *consumer's* step fails.
+// Errors of the iteration protocol itself (next(), reading done/value of the result) must not
+// close it: an iterator whose own step failed gets no return() call.
+var IterProto = &core.Rule{Name: "R-ITERPROTO", Run: runIterProto,
+	Doc: "in iterate(), the closure whose failure triggers returnIter() calls nothing that may run script except the consumer callback; next()/iteratorComplete/iteratorValue run outside it"}
+
+func runIterProto(p *core.Prog) *core.Result {
+	res := core.NewResult("R-ITERPROTO", 1)
+	iterate, err := p.GojaMethod("iteratorRecord", "iterate")
+	if err != nil {
+		return res.Fail(err)
+	}
+	tryFunc, err := p.GojaFunc("tryFunc")
+	if err != nil {
+		return res.Fail(err)
+	}
+	returnIter, err := p.GojaMethod("iteratorRecord", "returnIter")
+	if err != nil {
+		return res.Fail(err)
+	}
+	n := 0
+	for _, ci := range core.CallsIn(iterate, tryFunc) {
+		c, ok := ci.(*ssa.Call)
+		if !ok || len(core.Referrers(c)) == 0 {
+			continue // the discarded tryFunc is the closing call itself
+		}
+		mc, ok := c.Call.Args[0].(*ssa.MakeClosure)
+		if !ok {
+			continue
+		}
+		fn := mc.Fn.(*ssa.Function)
+		if len(core.CallsIn(fn, returnIter)) > 0 {
+			continue
+		}
+		n++
+		key := "(*iteratorRecord).iterate:guarded-step-only"
+		bad := ""
+		core.AllInstrs(fn, func(in ssa.Instruction) {
+			cc, ok := in.(ssa.CallInstruction)
+			if !ok || p.MayRunScript(cc) == "" {
+				return
+			}
+			// the consumer callback: a call of a free variable holding the `step` parameter
+			if ld, ok := cc.Common().Value.(*ssa.UnOp); ok {
+				if _, isFV := ld.X.(*ssa.FreeVar); isFV {
+					return
+				}
+			}
+			if _, isFV := cc.Common().Value.(*ssa.FreeVar); isFV {
+				return
+			}
+			name := "a dynamic call"
+			if sc := core.StaticCallee(cc); sc != nil {
+				name = core.FuncName(sc)
+			}
+			bad = name + " at " + p.Pos(in.Pos())
+		})
+		if bad == "" {
+			res.OK(key, p.Pos(c.Pos()), "only the consumer callback runs inside the closing guard")
+		} else {
+			res.Bad(key, p.Pos(c.Pos()), "the guard whose failure calls the iterator's return() also covers "+bad+": an exception thrown by the iterator's own result object (a throwing 'value' getter) now closes the iterator, which the specification forbids")
+		}
+	}
+	if n == 0 {
+		res.Bad("(*iteratorRecord).iterate:guarded-step-only", p.Pos(iterate.Pos()), "no guarded consumer step found in iterate(): anchor changed")
+	}
+	return res
+}
